@@ -153,6 +153,13 @@ def gen_cond_scenario(rng, tier='quick'):
             st.append(['else'])
             st.append(g.data())
             st.append(['endif'])
+    if rng.random() < 0.2 and len(files) < 3:
+        # the decision of a conditional is taken when its directive is reached: an included file that defines the symbol the
+        # opener tested does not change it for the lines behind the include
+        idx = len(files)
+        files.append({'name': f'tdef{idx}.asm', 'dir': 'src', 'stmts': [['define', 'HAVE_TDEF', '1'], g.data()]})
+        opener = rng.choice([['ifndef', 'HAVE_TDEF'], ['cmp', 'HAVE_TDEF', '!=', '1']])
+        st += [['if', opener], g.data(), ['include', idx, f'tdef{idx}.asm'], g.data(), ['else'], g.data(), ['endif'], g.data()]
     files[0]['stmts'] = st
     return {'cfg': cfg, 'files': files, 'include_dirs': ['lib'], 'extra_files': [], 'fault': 'cond-scenario', 'opts': _opts(rng, cfg)}
 
